@@ -264,8 +264,43 @@ func pendingTypestate(c *core.Ctx, p *load.Prog, fd *ast.FuncDecl, fname string)
 		}
 		return false
 	}
-	step := func(n ast.Node, s pstate) pstate {
+	// local closures (resetNext := func() { … }) run where they are called
+	closures := map[types.Object]*ast.FuncLit{}
+	ast.Inspect(fd.Body, func(m ast.Node) bool {
+		if as, ok := m.(*ast.AssignStmt); ok && len(as.Lhs) == len(as.Rhs) {
+			for i, l := range as.Lhs {
+				if id, ok := l.(*ast.Ident); ok {
+					if fl, ok := ast.Unparen(as.Rhs[i]).(*ast.FuncLit); ok {
+						if o := info.ObjectOf(id); o != nil {
+							if _, dup := closures[o]; dup {
+								closures[o] = nil // reassigned: not followed
+							} else {
+								closures[o] = fl
+							}
+						}
+					}
+				}
+			}
+		}
+		return true
+	})
+	var step func(n ast.Node, s pstate) pstate
+	stepDepth := 0
+	step = func(n ast.Node, s pstate) pstate {
 		ast.Inspect(n, func(m ast.Node) bool {
+			if _, isLit := m.(*ast.FuncLit); isLit {
+				return false // runs where it is called, not where it is written
+			}
+			if call, isCall := m.(*ast.CallExpr); isCall {
+				if id, isId := ast.Unparen(call.Fun).(*ast.Ident); isId {
+					if fl := closures[info.ObjectOf(id)]; fl != nil && stepDepth < 3 {
+						stepDepth++
+						s = step(fl.Body, s)
+						stepDepth--
+					}
+				}
+				return true
+			}
 			as, ok := m.(*ast.AssignStmt)
 			if !ok {
 				return true
